@@ -380,6 +380,8 @@ def transfer_space(spec):
             except Exception as e:
                 nm = 'virtual_hierarchy_prolongators(truncate=%s)' % tr
                 res[nm] = 'sat'; bad[nm] = ['exception %s: %s' % (type(e).__name__, str(e)[:100])]
+        # --- evaluation routes of hierarchical spline functions
+        evaluation_routes(fine, put, res, bad)
         # --- THB <-> HB
         cs = [z3.Real('c%d' % i) for i in range(nf)]
         cvec = np.array([Sym(t) for t in cs] + [None], dtype=object)[:-1]
@@ -424,6 +426,70 @@ def transfer_space(spec):
         return {'spec': spec, 'error': '%s: %s' % (type(e).__name__, e), 'traceback': traceback.format_exc()[-1500:]}
 
 
+class _Res:
+    """result of one evaluation method of a level-wise tensor-product function: which method, with which argument, and the function
+    it was applied to (as finest-level tensor-product coefficients).  Sums only within the same method and argument."""
+    def __init__(self, tag, arg, vec): self.tag = tag; self.arg = arg; self.vec = vec
+    def __add__(self, o):
+        if isinstance(o, (int, float)) and o == 0: return self
+        if not isinstance(o, _Res) or o.tag != self.tag or o.arg is not self.arg: return _Res('MIXED(%s,%s)' % (self.tag, getattr(o, 'tag', type(o).__name__)), None, self.vec)
+        return _Res(self.tag, self.arg, self.vec + o.vec)
+    __radd__ = __add__
+
+
+def evaluation_routes(fine, put, res, bad):
+    """HSplineFunc / HSpace.grid_eval with bspline.BSplineFunc replaced by a stand-in that records (method, argument, function):
+    every evaluation route must apply THE SAME method with THE SAME argument to level-wise functions whose sum is the function with the
+    given (T)HB coefficients.  (That BSplineFunc's own methods evaluate correctly is C07.)"""
+    from checks.C03 import SymVec, spdot
+    from pyiga import hierarchical, bspline as real_bspline
+    import types
+    if _HIER is not None: hierarchical = _HIER
+    Lf = fine.numlevels
+    levels = {tuple(id(kv) for kv in fine.knotvectors(k)): k for k in range(Lf)}
+
+    class StubBF:
+        def __init__(self, kvs, coeffs):
+            k = levels.get(tuple(id(kv) for kv in kvs))
+            if k is None:
+                k = [j for j in range(Lf) if all(a == b for a, b in zip(kvs, fine.knotvectors(j)))][0]
+            c = np.asarray(coeffs, dtype=object).reshape(-1)
+            M = tp_prolong(fine, k, Lf - 1)
+            self.vec = c if M is None else spdot(M, c)
+        def eval(self, *x): return _Res('eval', EV, self.vec)
+        def grid_eval(self, g): return _Res('grid_eval', g, self.vec)
+        def grid_jacobian(self, g): return _Res('grid_jacobian', g, self.vec)
+        def grid_hessian(self, g): return _Res('grid_hessian', g, self.vec)
+    EV = object()
+    shim = types.SimpleNamespace(**{k: getattr(real_bspline, k) for k in dir(real_bspline) if not k.startswith('__')})
+    shim.BSplineFunc = StubBF
+    old = hierarchical.bspline
+    hierarchical.bspline = shim
+    try:
+        n = fine.numdofs
+        cs = [z3.Real('c%d' % i) for i in range(n)]
+        for tr in (False, True):
+            ref = spdot(oracle_represent(fine, Lf - 1, tr), np.array([Sym(t) for t in cs] + [None], dtype=object)[:-1])
+            G = object()
+            for meth in ('eval', 'grid_eval', 'grid_jacobian', 'grid_hessian', 'HSpace.grid_eval'):
+                nm = 'HSplineFunc.%s (truncate=%s): sum over levels of the same method = the function with these coefficients' % (meth, tr)
+                try:
+                    cv = SymVec(n)
+                    for i, t in enumerate(cs): cv[i] = Sym(t)
+                    f = hierarchical.HSplineFunc(fine, cv, truncate=tr)
+                    if meth == 'eval': out = f.eval(0.25, 0.5); want = ('eval', EV)
+                    elif meth == 'HSpace.grid_eval': out = fine.grid_eval(cv, G, truncate=tr); want = ('grid_eval', G)
+                    else: out = getattr(f, meth)(G); want = (meth, G)
+                    if not isinstance(out, _Res) or out.tag != want[0] or out.arg is not want[1]:
+                        res[nm] = 'sat'; bad[nm] = ['route applies %s to the level functions' % getattr(out, 'tag', type(out).__name__)]
+                    else:
+                        put(nm, out.vec, ref, cs)
+                except Exception as e:
+                    res[nm] = 'sat'; bad[nm] = ['exception %s: %s' % (type(e).__name__, str(e)[:100])]
+    finally:
+        hierarchical.bspline = old
+
+
 def canary_space(args):
     """worker: the transfer obligations on one space, with HSpace/HMesh taken from a transformed copy of pyiga/hierarchical.py"""
     global _HIER
@@ -449,6 +515,12 @@ HCANARIES = [
     ('prolongate_to: propagation stops at a level without ACTIVE functions (instead of: without deactivated ones)',
      'if len(fd_l) == 0: # no more functions to prolongate on this level', 'if len(fa_l) == 0:',
      {'p': 1, 'n': [4], 'history': [{0: [[1]]}, {1: [[2], [3]]}, {2: [[4], [5], [6], [7]]}], 'truncate': False, 'disparity': 'inf'}),
+    ('HSplineFunc.grid_hessian sums the Jacobians of the level functions',
+     'return sum(f.grid_hessian(gridaxes)', 'return sum(f.grid_jacobian(gridaxes)',
+     {'p': 1, 'n': [3, 2], 'history': [{0: [[0, 0]]}], 'truncate': False, 'disparity': 'inf'}),
+    ('coeffs_to_levelwise_funcs: THB coefficients used as HB coefficients',
+     'coeffs = self.thb_to_hb() @ coeffs', 'coeffs = coeffs',
+     {'p': 2, 'n': [4], 'history': [{0: [[0], [1]]}, {1: [[0], [1]]}], 'truncate': True, 'disparity': 'inf'}),
     ('virtual_hierarchy_prolongators (HB): block of the deactivated functions taken from the wrong columns',
      'restrict=True)[:, ID[lv]]', 'restrict=True)[:, ID[lv][::-1]]',
      {'p': 2, 'n': [4], 'history': [{0: [[0], [1]]}, {1: [[0], [1]]}], 'truncate': False, 'disparity': 'inf'}),
@@ -545,6 +617,18 @@ try:
         if Rt.min() < -1e-12: bad.append('represent_fine(lv=%d, truncate=True): negative coefficients' % lv)
         if np.linalg.matrix_rank(np.hstack((Rh, Rt)), tol=1e-9) != Rh.shape[1] or np.linalg.matrix_rank(Rt, tol=1e-9) != Rh.shape[1]:
             bad.append('represent_fine(lv=%d, truncate=True): columns do not span the level space' % lv)
+    # evaluation routes against the finest-level tensor-product representation
+    kf = fine.knotvectors(L - 1); shp = [kv.numdofs for kv in kf]
+    for tr in (False, True):
+        c = rng.rand(fine.numdofs)
+        hf = hierarchical.HSplineFunc(fine, c, truncate=tr)
+        tf = bspline.BSplineFunc(kf, (fine.represent_fine(truncate=tr) @ c).reshape(shp))
+        for meth in ('grid_eval', 'grid_jacobian', 'grid_hessian'):
+            a = np.asarray(getattr(hf, meth)(pts)); b = np.asarray(getattr(tf, meth)(pts))
+            if a.shape != b.shape or not np.allclose(a, b, atol=1e-8 * (1 + abs(b).max())): bad.append('HSplineFunc.%s (truncate=%s) differs from the finest-level representation' % (meth, tr))
+        x0 = [0.3 * (kv.support()[0] + kv.support()[1]) for kv in kf]
+        if not np.allclose(hf(*x0), tf(*x0), atol=1e-10): bad.append('HSplineFunc.__call__ (truncate=%s) differs' % tr)
+        if not np.allclose(fine.grid_eval(c, pts, truncate=tr), tf.grid_eval(pts), atol=1e-10): bad.append('HSpace.grid_eval (truncate=%s) differs' % tr)
     # virtual hierarchy prolongators: composition of all, from level-0 tensor-product coefficients (active, then deactivated)
     for tr in (False, True):
         Ps = fine.virtual_hierarchy_prolongators(truncate=tr)
@@ -577,16 +661,16 @@ def main():
     enc = srcload.Encoded()
     ns = load_insertion(enc)
     run.add_encoded(enc)
-    run.stubs += ['scipy.sparse.lil_matrix -> symsparse', 'np allocation -> object arrays', '(B) real HSpace code of /repo; entries of the real transfer matrices replaced by the dyadic rational within 1e-12']
+    run.stubs += ['(B) bspline.BSplineFunc inside HSplineFunc/coeffs_to_levelwise_funcs -> stand-in recording (method, argument, coefficients)', 'scipy.sparse.lil_matrix -> symsparse', 'np allocation -> object arrays', '(B) real HSpace code of /repo; entries of the real transfer matrices replaced by the dyadic rational within 1e-12']
     run.assumptions += ['doubles as reals', 'knot insertion: a < u < b and the refined vector is admissible (interior multiplicity <= p)',
                         '(B) the quantifier over refinement histories is by enumeration (not a solver verdict); the solver quantifies over the coefficient vector only (linear identities), tolerance 1e-9 for |c_i| <= 1',
                         'reference for "the same function": tensor-product coefficients on a common level, with level-to-level prolongation by EXACT knot insertion (own Boehm code in Fractions, self-tested against Cox-de Boor on every use) -- not the library\'s HMesh.P',
                         'reference for the (T)HB basis of a virtual level: textbook definition (prolongate the unit vector; THB: after each step zero the coefficients of all functions whose support lies in that level\'s refinement region)',
                         'span equality is decided with tolerance 1e-9 (existential LRA query per column + independence query)']
     run.out_of_scope += ['bspline.prolongation for arbitrary knot vectors (collocation solve through sparse LU: numeric, FFI): only its results inside HMesh.P are compared with exact knot insertion, on the listed level knot vectors',
-                         'HSplineFunc evaluation routes (used in the real replay only)', 'rounding below 1e-9']
+                         'the evaluation kernels of the level-wise BSplineFunc objects (C07); here: that every HSplineFunc route sums the same method over the right level-wise functions', 'rounding below 1e-9']
     run.bounds = {'knot insertion': 'degree 1..3 (4 thorough), 0..2 symbolic interior knots (coincident knots allowed), u anywhere in (a,b) incl. on existing knots, all real x',
-                  'transfers': 'histories listed in evidence: 1D-2D (3D thorough), degree 1-3, HB and THB, disparity inf/1/2, different and graded knot vectors per direction (same degree and size), empty intermediate levels, sharply nested regions; per space: prolongate_to from every prefix, HMesh.P per level and direction, represent_fine on every virtual level for both bases, virtual_hierarchy_prolongators (composition, spans) for both bases, THB<->HB, boundary restriction'}
+                  'transfers': 'histories listed in evidence: 1D-2D (3D thorough), degree 1-3, HB and THB, disparity inf/1/2, different and graded knot vectors per direction (same degree and size), empty intermediate levels, sharply nested regions; per space: prolongate_to from every prefix, HMesh.P per level and direction, represent_fine on every virtual level for both bases, virtual_hierarchy_prolongators (composition, spans) for both bases, HSplineFunc.eval/grid_eval/grid_jacobian/grid_hessian and HSpace.grid_eval for both bases, THB<->HB, boundary restriction'}
     if run.want('insertion'):
         cfgs = [(1, 0), (1, 1), (1, 2), (2, 1), (2, 2), (3, 1), (3, 2), (2, 3)] + ([(3, 3), (4, 1), (4, 2), (5, 1), (5, 2)] if thorough else [])
         for p, nint in cfgs:
